@@ -198,13 +198,17 @@ def lane_facts(ctx, source, family, groups, cfg_filter=None, extra_defs=(), args
 # ----------------------------------------------------------------------
 # ordered traces (register programs, histories): one file per (config, unit)
 # ----------------------------------------------------------------------
-def ordered_traces(ctx, source, family, groups, module, suffix, cfg_filter=None, extra_defs=(), libs=(), extra=()):
+def ordered_traces(ctx, source, family, groups, module, suffix, cfg_filter=None, extra_defs=(), libs=(), extra=(), cfgs=None):
     """Build and run <source>; the driver writes <prefix>.<unit><suffix> ndjson traces.
     Byte-identical traces (same program, same observations) are validated once.
     Returns number of distinct traces validated."""
     import glob
     import hashlib
-    cfgs = [c for c in ctx.cfgs if cfg_filter is None or cfg_filter(c)]
+    if cfgs is None:
+        cfgs = [c for c in ctx.cfgs if cfg_filter is None or cfg_filter(c)]
+    else:
+        ctx.cfgs = list(cfgs)
+        ctx.ev['configurations'] = [c.describe() for c in cfgs]
     jobs = []
     for c in cfgs:
         for g in groups:
